@@ -1,4 +1,6 @@
 import Scion.Proofs.Scmp
+import Scion.Proofs.ScmpBytes
+import Scion.Props.C20
 import Scion.Gen.Scmp
 /-!
 # C09 — SCMP errors are well-formed, addressed to the source, and bounded in size
@@ -14,10 +16,9 @@ Theorems are about `Scion.Scmp.processPacket`, the model of `slowPathPacketProce
 configuration, link scope and headroom.  Constants and the `ScmpHeaderSize` table are those of
 `Scion.Gen.Scmp`, regenerated from /repo on every run.
 
-Not theorems here (checked on the real bytes by the harness predicate of engine `scmp`, with the
-real decoder / an independent one's-complement sum / the real SPAO verifier): the checksum value and
-the authenticator tag — their inputs (pseudo header = the reply's address header; SPAO over the
-reply header and SCMP message) are fixed by `scmp_addressing` and `auth_iff`.
+Checksum and authenticator compose the models of C20 (`Scion.Checksum`) and C21 (`Scion.Spao`) with
+the byte level of the emitted SCMP message (`Scion/Model/ScmpBytes.lean`):
+`scmp_reply_checksum_verifies`, `auth_tag_valid`.  The MAC itself (AES-CMAC) is a parameter.
 -/
 namespace Scion.C09
 open Scion.Scmp Scion.PathMeta Scion.Util
@@ -268,6 +269,114 @@ theorem auth_iff (cfg : Cfg) (scope : Scope) (headroom : Nat) (o : Offender) (rq
     have : r.isError = false := hf.2.2.2.2.2.2.2.2.2.2.2.2.2.2.2.2.1
     rw [this] at he; cases he
 
+/-! ## checksum (composition with C20) -/
+
+/-- **The checksum of every emitted message verifies.**  The SCMP message the model serialises
+(type, code, checksum field, info block, quote) gets the checksum `SCMP.SerializeTo` computes over
+the pseudo header of the reply (destination = offender's source, source = router; upper-layer
+length; protocol 202); the receiver's one's-complement sum over pseudo header and message then
+folds to `0xFFFF` and recomputing the checksum yields 0 (C20 `checksum_verifies` at offset 2). -/
+theorem scmp_reply_checksum_verifies (cfg : Cfg) (scope : Scope) (headroom : Nat) (o : Offender)
+    (rq : Request) (b : Base) (hw : WellFormed o b) (hc : Consistent b)
+    (hsrc : o.rawSrc.length = addrTypeLen o.srcType) (hhost : cfg.rawHost.length = addrTypeLen cfg.hostType)
+    (r : Reply) (h : processPacket cfg scope headroom o rq = .emit r) :
+    ∃ c, scmpChecksum r = .ok c ∧
+      (scmpMsgWith r c).length = (scmpMsg0 r).length ∧
+      Scion.Checksum.fold (Scion.Checksum.totalRaw (phdr r) (scmpMsgWith r c).length l4SCMP (scmpMsgWith r c)) = 0xffff ∧
+      Scion.Checksum.computeChecksum (phdr r) (scmpMsgWith r c) l4SCMP = .ok 0 := by
+  obtain ⟨_, _, _, _, _, _, hq, _, _, hdt, hrd, _, hst, hrs, _, _⟩ := emit_shape cfg scope headroom o rq b hw hc r h
+  have hib := infoBytes_len r.scmpType r.info
+  have hwf : Scion.C20.WFHdr (phdr r) := by
+    have h1 := addrTypeLen_le o.srcType
+    have h2 := addrTypeLen_le cfg.hostType
+    unfold Scion.C20.WFHdr Scion.C20.AddrLen phdr
+    dsimp only
+    rw [hrs, hrd, hsrc, hhost]
+    unfold addrTypeLen lineLen
+    constructor <;> omega
+  have hlen : (scmpMsg0 r).length = 4 + (infoBytes r.scmpType r.info).length + r.quote.length := by
+    unfold scmpMsg0; simp [List.length_append]; omega
+  have hl : (scmpMsg0 r).length ≤ 65535 := by unfold maxSCMPPacketLen at hq; omega
+  have hz : Scion.Checksum.getWord (scmpMsg0 r) 2 = 0 := by
+    unfold scmpMsg0
+    simp [Scion.Checksum.getWord]
+  have hc' := Scion.C20.computeChecksum_eq (phdr r) hwf (scmpMsg0 r) l4SCMP hl
+  refine ⟨_, hc', ?_⟩
+  have hv := Scion.C20.checksum_verifies (phdr r) hwf (scmpMsg0 r) l4SCMP 2 _ hl (by decide) (by omega) hz hc'
+  exact ⟨hv.1, hv.2.2.1, hv.2.2.2⟩
+
+/-! ## authenticator (composition with C21) -/
+
+/-- field widths of the offending packet's header and of the configuration, as the decoder and the
+router's configuration guarantee them -/
+def Widths (cfg : Cfg) (o : Offender) : Prop :=
+  o.tc < 256 ∧ o.flowID < 2^20 ∧ o.srcType < 16 ∧ cfg.hostType < 16 ∧ o.srcIA < 2^64 ∧
+  cfg.localIA < 2^64 ∧ o.rawSrc.length = addrTypeLen o.srcType ∧
+  cfg.rawHost.length = addrTypeLen cfg.hostType
+
+/-- **The authenticator tag is the MAC of the reply's authenticated data.**  For every MAC
+function `mac`, key, option timestamp and SCMP message: the input `spao.ComputeAuthCMAC` builds from
+the reply header of the model is defined (never an error: header ≤ 1020 bytes, aligned, path
+well-formed) and is exactly C21's `fixedPart ‖ addrPart ‖ zeroed path ‖ message`, where the address
+part is the destination-less, source-only selection of a DRKey AS-host sender-side SPI; the model's
+tag is `mac key` of it. -/
+theorem auth_tag_valid (mac : Bytes → Bytes → Bytes) (key : Bytes)
+    (cfg : Cfg) (scope : Scope) (headroom : Nat) (o : Offender) (rq : Request)
+    (b : Base) (hw : WellFormed o b) (hc : Consistent b) (hwd : Widths cfg o)
+    (r : Reply) (h : processPacket cfg scope headroom o rq = .emit r)
+    (ts : Nat) (hts : ts < 2^48) (msg : Bytes) (hmsg : msg.length < 65536) :
+    ∃ z, Scion.Spao.zeroPath (replyHdr r).path = some z ∧
+      Scion.Spao.macInput (replyAuthIn r ts msg) =
+        .ok (Scion.Spao.fixedPart (replyAuthIn r ts msg) ++ r.rawSrc ++ z ++ msg) ∧
+      authTag mac key r ts msg =
+        some (mac key (Scion.Spao.fixedPart (replyAuthIn r ts msg) ++ r.rawSrc ++ z ++ msg)) ∧
+      r.rawSrc = cfg.rawHost ∧ r.dstIA = o.srcIA := by
+  obtain ⟨hcons, hsegs, hil, hhl, h12, hmax, _, hpt, hdia, hdt, hrd, hsia, hst, hrs, htc, hfl⟩ :=
+    emit_shape cfg scope headroom o rq b hw hc r h
+  obtain ⟨w1, w2, w3, w4, w5, w6, w7, w8⟩ := hwd
+  have hlt := consistent_currINF_lt _ hcons
+  obtain ⟨hs, hni, hnh, hcur, hidx⟩ := hcons
+  dsimp only at hs hni hnh hcur hidx hlt
+  have hbd : baseDecode r.pm = some ⟨r.pm, Scion.C19.nonEmptySegs r.pm, sumHops r.pm⟩ := by
+    rw [Scion.C19.baseDecode_closed]; unfold Scion.C19.Shape at hs; rw [if_pos hs]
+  have hbody : (replyPathBody r).length = 8 * r.numINF + 12 * r.numHops := by
+    unfold replyPathBody
+    rw [List.length_append, length_encInfos, List.length_map, length_flatten12 _ h12, hil, hhl]
+  have hwf : (replyAuthIn r ts msg).WF := by
+    unfold Scion.Spao.AuthIn.WF replyAuthIn replyHdr
+    dsimp only
+    obtain ⟨s0, s1, s2⟩ := hsegs
+    refine ⟨by omega, by omega, by omega, by omega, by omega, by omega, ?_, ?_, by unfold scmpSPI; omega,
+      by omega, hts, by unfold l4SCMP; omega, hmsg, ?_⟩
+    · unfold Scion.Wire.Addr.WF Scion.Wire.addrLen
+      dsimp only
+      rw [hdia, hsia, hrd, hrs, hdt, hst, w7, w8]
+      unfold addrTypeLen lineLen
+      exact ⟨w5, w6, rfl, rfl⟩
+    · unfold Scion.Wire.PathWF Scion.Wire.RawWF
+      refine ⟨⟨by omega, by omega, s0, s1, s2⟩, ?_⟩
+      rw [hbd]
+      unfold Scion.Wire.bodyLen
+      dsimp only
+      rw [hbody, ← hni, ← hnh]; omega
+    · unfold Scion.Wire.addrHdrLen Scion.Wire.addrLen Scion.Wire.pathLen
+      dsimp only
+      rw [hbd]
+      unfold Scion.Wire.bodyLen
+      dsimp only
+      unfold cmnHdrLen addrHdrLen addrTypeLen pathLen iaBytes lineLen metaLen infoLen hopLen maxHdrLen at hmax
+      rw [← hni, ← hnh]; omega
+  obtain ⟨z, hz, _, _, hmi⟩ := Scion.Spao.macInput_ok (replyAuthIn r ts msg) hwf
+  have haddr : Scion.Spao.addrPart (replyAuthIn r ts msg) = r.rawSrc := by
+    unfold Scion.Spao.addrPart replyAuthIn
+    simp [Scion.Spao.inclIA, Scion.Spao.inclDst, Scion.Spao.inclSrc, Scion.Spao.isDRKey, Scion.Spao.spiType,
+      Scion.Spao.spiDir, scmpSPI, replyHdr]
+  rw [haddr] at hmi
+  refine ⟨z, hz, hmi, ?_, hrs, hdia⟩
+  unfold authTag
+  rw [hmi]
+  rfl
+
 /-! ## non-vacuity: a concrete bad-MAC report on an external link -/
 
 def exOffender : Offender :=
@@ -278,6 +387,18 @@ def exOffender : Offender :=
     l4 := .other, trID := 0, trSeq := 0, reqAuthValid := false }
 
 def exCfg : Cfg := ⟨1, 0, [198, 51, 100, 1], true, 0⟩
+
+/-- the example meets the hypotheses of `scmp_reply_checksum_verifies` / `auth_tag_valid` -/
+example : WellFormed exOffender ⟨⟨0, 1, 2, 2, 0⟩, 2, 4⟩ ∧ Consistent ⟨⟨0, 1, 2, 2, 0⟩, 2, 4⟩ ∧
+    Widths exCfg exOffender := by
+  refine ⟨⟨by decide, rfl, rfl, ?_⟩, by simp [Consistent, Scion.C19.Shape, Scion.C19.nonEmptySegs, sumHops, infIdx],
+    by unfold Widths; decide⟩
+  intro h hm
+  have hh : exOffender.hops =
+      [List.replicate 12 1, List.replicate 12 2, List.replicate 12 3, List.replicate 12 4] := rfl
+  rw [hh] at hm
+  simp only [List.mem_cons, List.not_mem_nil, or_false] at hm
+  rcases hm with rfl | rfl | rfl | rfl <;> rfl
 
 def summ : Outcome → List Nat
   | .emit r => [r.total, r.quote.length, r.hdrLenField, r.dstIA, r.srcIA, r.auth.toNat, r.pm.currHF,
